@@ -277,6 +277,13 @@ func (c *compiler) compileType(y *Type, parent Leafable, isUnion bool) error {
 	}
 	var builtinType bool
 	y.format, builtinType = val.TypeAsFormat(y.ident)
+	if builtinType && y.format == val.FmtAny {
+		// "any" is this library's name for anydata, not a YANG built-in type: a
+		// typedef of that name in scope is what the module means
+		if tdef, err := c.findTypedef(y, parent, y.ident); err == nil && tdef != nil {
+			builtinType = false
+		}
+	}
 	if !builtinType {
 		tdef, err := c.findTypedef(y, parent, y.ident)
 		if err != nil {
